@@ -155,6 +155,12 @@ pub const RUNTIME_GLOBALS: &[&str] = &[
     // core
     "=", "<", ">", "<=", ">=", "+", "-", "*", "/", "quotient", "remainder", "modulo", "logand", "logior", "not", "member", "equal?", "eq?", "string", "string-append", "display", "newline", "format",
     "dynamic-wind", "list", "string=?", "number->string", "call-with-output-string",
+    // more of the standard core, so that an equivalent program written with other standard procedures
+    // is executed rather than rejected
+    "zero?", "positive?", "negative?", "even?", "odd?", "1+", "1-", "max", "min", "abs", "logxor", "lognot", "ash", "logtest", "logbit?", "memq", "memv", "eqv?", "null?", "pair?", "list?",
+    "car", "cdr", "cons", "cadr", "length", "append", "reverse", "apply", "map", "for-each", "string-length", "string-prefix?", "string-suffix?", "string-contains", "string-downcase", "string-upcase",
+    "string-ci=?", "string<?", "char=?", "string-ref", "substring", "number?", "integer?", "string?", "boolean?", "symbol?", "procedure?", "char->integer", "integer->char", "list-ref", "string->number",
+    "string-null?", "values", "identity", "assoc", "assq", "assv", "expt", "exact", "truncate-quotient", "floor-quotient",
     // (ice-9 threads) / ports
     "make-mutex", "lock-mutex", "unlock-mutex", "current-output-port", "open-file", "open-output-file", "close-port", "force-output",
     // (lipe) / (lipe find)
@@ -165,7 +171,7 @@ pub const RUNTIME_GLOBALS: &[&str] = &[
     "basename",
 ];
 
-pub const SPECIAL_FORMS: &[&str] = &["let*", "let", "lambda", "and", "or", "if", "with-mutex", "use-modules", "quote", "begin", "when", "unless", "define"];
+pub const SPECIAL_FORMS: &[&str] = &["let*", "let", "letrec", "lambda", "and", "or", "if", "cond", "case", "else", "=>", "with-mutex", "use-modules", "quote", "begin", "when", "unless", "define", "set!"];
 
 fn gcd(a: i128, b: i128) -> i128 {
     if b == 0 {
@@ -326,6 +332,71 @@ impl World {
                 }
             })(),
             "begin" => self.body(&items[1..], env),
+            "cond" => (|| {
+                for clause in &items[1..] {
+                    let c = clause.list().ok_or("cond: bad clause")?;
+                    let Some(test) = c.first() else { return Err("cond: empty clause".into()) };
+                    let v = if test.is_sym("else") { V::Bool(true) } else { self.eval(test, env)? };
+                    if v.truthy() {
+                        if c.len() == 1 {
+                            return Ok(v);
+                        }
+                        if c.len() == 3 && c[1].is_sym("=>") {
+                            let f = self.eval(&c[2], env)?;
+                            return self.apply(&f, vec![v]);
+                        }
+                        return self.body(&c[1..], env);
+                    }
+                }
+                Ok(V::Unspec)
+            })(),
+            "case" => (|| {
+                let key = self.eval(items.get(1).ok_or("case: bad syntax")?, env)?;
+                for clause in &items[2..] {
+                    let c = clause.list().ok_or("case: bad clause")?;
+                    let Some(data) = c.first() else { return Err("case: empty clause".into()) };
+                    let hit = if data.is_sym("else") { true } else { data.list().ok_or("case: bad datum list")?.iter().any(|d| equal(&quote(d), &key)) };
+                    if hit {
+                        return self.body(&c[1..], env);
+                    }
+                }
+                Ok(V::Unspec)
+            })(),
+            "define" => (|| {
+                // (define name value) or (define (name params...) body...) in the current frame
+                match items.get(1) {
+                    Some(Sx::Sym(n)) => {
+                        let v = match items.get(2) {
+                            Some(x) => self.eval(x, env)?,
+                            None => V::Unspec,
+                        };
+                        env.vars.borrow_mut().push((n.clone(), v));
+                        Ok(V::Unspec)
+                    }
+                    Some(Sx::List(sig)) if !sig.is_empty() => {
+                        let n = sig[0].sym().ok_or("define: bad name")?.to_string();
+                        let mut lam = vec![Sx::Sym("lambda".into()), Sx::List(sig[1..].to_vec())];
+                        lam.extend(items[2..].iter().cloned());
+                        let v = self.eval(&Sx::List(lam), env)?;
+                        env.vars.borrow_mut().push((n, v));
+                        Ok(V::Unspec)
+                    }
+                    _ => Err("define: bad syntax".into()),
+                }
+            })(),
+            "set!" => (|| {
+                let n = items.get(1).and_then(|x| x.sym()).ok_or("set!: bad syntax")?;
+                let v = self.eval(items.get(2).ok_or("set!: bad syntax")?, env)?;
+                let mut e = Some(env);
+                while let Some(fr) = e {
+                    if let Some(slot) = fr.vars.borrow_mut().iter_mut().rev().find(|(k, _)| k == n) {
+                        slot.1 = v;
+                        return Ok(V::Unspec);
+                    }
+                    e = fr.parent.as_ref();
+                }
+                Err(format!("set!: unbound variable {n}"))
+            })(),
             "when" | "unless" => (|| {
                 let c = self.eval(items.get(1).ok_or("when: bad syntax")?, env)?.truthy();
                 if c == (h == "when") {
@@ -489,6 +560,291 @@ impl World {
             "not" => {
                 argc(1)?;
                 Ok(V::Bool(!a[0].truthy()))
+            }
+            "zero?" | "positive?" | "negative?" => {
+                argc(1)?;
+                let (n, _) = num(&a[0], name)?;
+                Ok(V::Bool(match name {
+                    "zero?" => n == 0,
+                    "positive?" => n > 0,
+                    _ => n < 0,
+                }))
+            }
+            "even?" | "odd?" => {
+                argc(1)?;
+                Ok(V::Bool((int(0)?.rem_euclid(2) == 0) == (name == "even?")))
+            }
+            "1+" => {
+                argc(1)?;
+                Ok(V::Int(int(0)? + 1))
+            }
+            "1-" => {
+                argc(1)?;
+                Ok(V::Int(int(0)? - 1))
+            }
+            "max" | "min" => {
+                if a.is_empty() {
+                    return Err(format!("{name}: needs an argument"));
+                }
+                let mut best = int(0)?;
+                for i in 1..a.len() {
+                    let v = int(i)?;
+                    best = if name == "max" { best.max(v) } else { best.min(v) };
+                }
+                Ok(V::Int(best))
+            }
+            "abs" => {
+                argc(1)?;
+                Ok(V::Int(int(0)?.abs()))
+            }
+            "expt" => {
+                argc(2)?;
+                let (b, e) = (int(0)?, int(1)?);
+                if !(0..=126).contains(&e) {
+                    return Err("expt: exponent outside the evaluator's range".into());
+                }
+                b.checked_pow(e as u32).map(V::Int).ok_or_else(|| "expt: result outside the evaluator's range".to_string())
+            }
+            "truncate-quotient" | "floor-quotient" => {
+                argc(2)?;
+                let (n, d) = (int(0)?, int(1)?);
+                if d == 0 {
+                    return Err(format!("{name}: division by zero"));
+                }
+                Ok(V::Int(if name == "truncate-quotient" { n / d } else { n.div_euclid(d) }))
+            }
+            "logxor" => {
+                let mut v = 0i128;
+                for i in 0..a.len() {
+                    v ^= int(i)?;
+                }
+                Ok(V::Int(v))
+            }
+            "lognot" => {
+                argc(1)?;
+                Ok(V::Int(!int(0)?))
+            }
+            "ash" => {
+                argc(2)?;
+                let (v, k) = (int(0)?, int(1)?);
+                if k.abs() > 100 {
+                    return Err("ash: shift outside the evaluator's range".into());
+                }
+                Ok(V::Int(if k >= 0 { v.checked_shl(k as u32).ok_or("ash: overflow")? } else { v >> (-k) as u32 }))
+            }
+            "logtest" => {
+                argc(2)?;
+                Ok(V::Bool(int(0)? & int(1)? != 0))
+            }
+            "logbit?" => {
+                argc(2)?;
+                let k = int(0)?;
+                Ok(V::Bool((0..127).contains(&k) && (int(1)? >> k as u32) & 1 == 1))
+            }
+            "eqv?" => {
+                argc(2)?;
+                Ok(V::Bool(equal(&a[0], &a[1])))
+            }
+            "memq" | "memv" => {
+                argc(2)?;
+                match &a[1] {
+                    V::List(l) => match l.iter().position(|x| equal(x, &a[0])) {
+                        Some(p) => Ok(V::List(Rc::new(l[p..].to_vec()))),
+                        None => Ok(V::Bool(false)),
+                    },
+                    o => Err(format!("{name}: wrong type argument (expected list): {o:?}")),
+                }
+            }
+            "assoc" | "assq" | "assv" => {
+                argc(2)?;
+                match &a[1] {
+                    V::List(l) => {
+                        for e in l.iter() {
+                            if let V::List(p) = e {
+                                if p.first().map(|k| equal(k, &a[0])).unwrap_or(false) {
+                                    return Ok(e.clone());
+                                }
+                            }
+                        }
+                        Ok(V::Bool(false))
+                    }
+                    o => Err(format!("{name}: wrong type argument (expected list): {o:?}")),
+                }
+            }
+            "null?" => {
+                argc(1)?;
+                Ok(V::Bool(matches!(&a[0], V::List(l) if l.is_empty())))
+            }
+            "pair?" => {
+                argc(1)?;
+                Ok(V::Bool(matches!(&a[0], V::List(l) if !l.is_empty())))
+            }
+            "list?" => {
+                argc(1)?;
+                Ok(V::Bool(matches!(&a[0], V::List(_))))
+            }
+            "car" | "cdr" | "cadr" => {
+                argc(1)?;
+                match &a[0] {
+                    V::List(l) if !l.is_empty() => match name {
+                        "car" => Ok(l[0].clone()),
+                        "cdr" => Ok(V::List(Rc::new(l[1..].to_vec()))),
+                        _ => l.get(1).cloned().ok_or_else(|| "cadr: list too short".to_string()),
+                    },
+                    o => Err(format!("{name}: wrong type argument (expected pair): {o:?}")),
+                }
+            }
+            "cons" => {
+                argc(2)?;
+                match &a[1] {
+                    V::List(l) => {
+                        let mut v = vec![a[0].clone()];
+                        v.extend(l.iter().cloned());
+                        Ok(V::List(Rc::new(v)))
+                    }
+                    o => Err(format!("cons: improper lists are not modelled (second argument {o:?})")),
+                }
+            }
+            "length" => {
+                argc(1)?;
+                match &a[0] {
+                    V::List(l) => Ok(V::Int(l.len() as i128)),
+                    o => Err(format!("length: wrong type argument (expected list): {o:?}")),
+                }
+            }
+            "append" => {
+                let mut v = vec![];
+                for x in &a {
+                    match x {
+                        V::List(l) => v.extend(l.iter().cloned()),
+                        o => return Err(format!("append: wrong type argument (expected list): {o:?}")),
+                    }
+                }
+                Ok(V::List(Rc::new(v)))
+            }
+            "reverse" => {
+                argc(1)?;
+                match &a[0] {
+                    V::List(l) => Ok(V::List(Rc::new(l.iter().rev().cloned().collect()))),
+                    o => Err(format!("reverse: wrong type argument (expected list): {o:?}")),
+                }
+            }
+            "list-ref" => {
+                argc(2)?;
+                match &a[0] {
+                    V::List(l) => l.get(int(1)?.max(0) as usize).cloned().ok_or_else(|| "list-ref: index out of range".to_string()),
+                    o => Err(format!("list-ref: wrong type argument (expected list): {o:?}")),
+                }
+            }
+            "apply" => {
+                if a.len() < 2 {
+                    return Err("apply: needs a procedure and a list".into());
+                }
+                let mut args: Vec<V> = a[1..a.len() - 1].to_vec();
+                match &a[a.len() - 1] {
+                    V::List(l) => args.extend(l.iter().cloned()),
+                    o => return Err(format!("apply: last argument must be a list: {o:?}")),
+                }
+                let f = a[0].clone();
+                self.apply(&f, args)
+            }
+            "map" | "for-each" => {
+                if a.len() != 2 {
+                    return Err(format!("{name}: one list only is modelled"));
+                }
+                let f = a[0].clone();
+                let l = match &a[1] {
+                    V::List(l) => l.clone(),
+                    o => return Err(format!("{name}: wrong type argument (expected list): {o:?}")),
+                };
+                let mut out = vec![];
+                for x in l.iter() {
+                    out.push(self.apply(&f, vec![x.clone()])?);
+                }
+                Ok(if name == "map" { V::List(Rc::new(out)) } else { V::Unspec })
+            }
+            "values" | "identity" | "exact" => {
+                argc(1)?;
+                Ok(a[0].clone())
+            }
+            "string-length" => {
+                argc(1)?;
+                Ok(V::Int(string(0)?.chars().count() as i128))
+            }
+            "string-null?" => {
+                argc(1)?;
+                Ok(V::Bool(string(0)?.is_empty()))
+            }
+            "string-prefix?" | "string-suffix?" => {
+                argc(2)?;
+                let (p, t) = (string(0)?, string(1)?);
+                Ok(V::Bool(if name == "string-prefix?" { t.starts_with(&*p) } else { t.ends_with(&*p) }))
+            }
+            "string-contains" => {
+                argc(2)?;
+                let (t, p) = (string(0)?, string(1)?);
+                Ok(match t.find(&*p) {
+                    Some(i) => V::Int(t[..i].chars().count() as i128),
+                    None => V::Bool(false),
+                })
+            }
+            "string-downcase" => {
+                argc(1)?;
+                Ok(V::str(&string(0)?.to_lowercase()))
+            }
+            "string-upcase" => {
+                argc(1)?;
+                Ok(V::str(&string(0)?.to_uppercase()))
+            }
+            "string-ci=?" => {
+                argc(2)?;
+                Ok(V::Bool(string(0)?.to_lowercase() == string(1)?.to_lowercase()))
+            }
+            "string<?" => {
+                argc(2)?;
+                Ok(V::Bool(string(0)? < string(1)?))
+            }
+            "char=?" => {
+                argc(2)?;
+                Ok(V::Bool(matches!((&a[0], &a[1]), (V::Char(x), V::Char(y)) if x == y)))
+            }
+            "string-ref" => {
+                argc(2)?;
+                string(0)?.chars().nth(int(1)?.max(0) as usize).map(V::Char).ok_or_else(|| "string-ref: index out of range".to_string())
+            }
+            "substring" => {
+                if a.len() < 2 || a.len() > 3 {
+                    return Err("substring: wrong number of arguments".into());
+                }
+                let cs: Vec<char> = string(0)?.chars().collect();
+                let (from, to) = (int(1)?.max(0) as usize, if a.len() == 3 { int(2)?.max(0) as usize } else { cs.len() });
+                if from > to || to > cs.len() {
+                    return Err("substring: index out of range".into());
+                }
+                Ok(V::str(&cs[from..to].iter().collect::<String>()))
+            }
+            "number?" | "integer?" | "string?" | "boolean?" | "symbol?" | "procedure?" => {
+                argc(1)?;
+                Ok(V::Bool(match (name, &a[0]) {
+                    ("number?", V::Int(_) | V::Rat(..)) | ("integer?", V::Int(_)) | ("string?", V::Str(_)) | ("boolean?", V::Bool(_)) | ("symbol?", V::Sym(_)) => true,
+                    ("procedure?", V::Closure(_) | V::Prim(_) | V::Printer(..)) => true,
+                    _ => false,
+                }))
+            }
+            "char->integer" => {
+                argc(1)?;
+                match &a[0] {
+                    V::Char(c) => Ok(V::Int(*c as i128)),
+                    o => Err(format!("char->integer: wrong type argument: {o:?}")),
+                }
+            }
+            "integer->char" => {
+                argc(1)?;
+                u32::try_from(int(0)?).ok().and_then(char::from_u32).map(V::Char).ok_or_else(|| "integer->char: out of range".to_string())
+            }
+            "string->number" => {
+                argc(1)?;
+                Ok(string(0)?.parse::<i128>().map(V::Int).unwrap_or(V::Bool(false)))
             }
             "equal?" | "eq?" | "string=?" => {
                 argc(2)?;
@@ -1024,3 +1380,34 @@ pub fn decode_frames(stream: &str, is_tag: &dyn Fn(char) -> bool) -> Result<Vec<
 }
 
 pub fn _unused(_: &HashMap<u8, u8>) {}
+
+
+#[cfg(test)]
+mod tests {
+    use super::*;
+    fn run(src: &str) -> Result<String, String> {
+        let forms = crate::sx::read_all(src)?;
+        let mut w = World::new(vec![]);
+        let env = new_env();
+        let mut last = V::Unspec;
+        for f in &forms {
+            last = w.eval(f, &env)?;
+        }
+        Ok(format!("{last:?}"))
+    }
+    #[test]
+    fn standard_core() {
+        for (src, want) in [
+            ("(cond ((zero? 1) 'a) ((memq 'b '(a b c)) => car) (else 'z))", "b"),
+            ("(case (+ 1 2) ((1 2) 'low) ((3 4) 'mid) (else 'high))", "mid"),
+            ("(define (twice x) (* 2 x)) (map twice (list 1 2 3))", "[2, 4, 6]"),
+            ("(let ((n 0)) (for-each (lambda (x) (set! n (+ n x))) '(1 2 3)) n)", "6"),
+            ("(and (logtest 5 4) (logbit? 2 5) (= (ash 1 10) 1024) (= (logxor 6 3) 5))", "#t"),
+            ("(string-append (string-upcase \"ab\") (substring \"hello\" 1 3) (number->string (string-length \"héé\")))", "\"ABel3\""),
+            ("(apply max 1 '(7 3))", "7"),
+            ("(if (string-prefix? \"ab\" \"abc\") (1+ (length (append '(1) '(2 3)))) 0)", "4"),
+        ] {
+            assert_eq!(run(src).unwrap(), want, "{src}");
+        }
+    }
+}
